@@ -98,7 +98,13 @@ pub fn run_generate_source(source: &str) -> Analysis {
         }
     };
     if syn::parse2::<syn::ItemEnum>(ts.clone()).is_err() {
-        return Analysis { source: source.to_string(), outcome: Outcome::Unparsable("not an enum".into()), graph: None, output: String::new() };
+        // rustc recovers from many syntax errors inside an enum (a forgotten comma between variants, `A(dyn)`,
+        // `A(u8 = 3)`) and still hands the item to the derive: token streams with a top-level `enum` keyword are
+        // enum inputs even when syn cannot parse them. Anything else (structs, loose tokens) is not.
+        let has_enum_keyword = ts.clone().into_iter().any(|t| matches!(&t, proc_macro2::TokenTree::Ident(i) if i == "enum"));
+        if !has_enum_keyword {
+            return Analysis { source: source.to_string(), outcome: Outcome::Unparsable("not an enum".into()), graph: None, output: String::new() };
+        }
     }
     logos_codegen::verif::clear();
     let res = catch_unwind(AssertUnwindSafe(|| logos_codegen::generate(ts)));
